@@ -26,6 +26,16 @@
        implementation-shaped model by TLC (MC_LinkDest); on real observations the exact spelling is
        diagnostic only (a correct refactoring may spell the URL differently).
      * EscOk: markdownUnescape(markdownURLEscape(u)) = u.
+     * Two more document spaces whose ground truth is COMPUTED by the reference (not tabulated):
+         - fence documents (FDoc): fence-like lines (indentation, run of backquotes or tildes, trailer)
+           alternating with link lines; CommonMark 4.5 (RefFenceOpens / RefFenceCloses: a closing fence
+           has the opener's character, is at least as long, is indented < 4 and is followed by blanks
+           only) decides which link lines are code;
+         - query documents (QDoc): one link whose query carries an arbitrary punctuation string written
+           with CommonMark backslash escapes (RefEscape); the rewriting must keep the query and fragment
+           (SuffixKept, RFC 3986 5.2.2: T.query = R.query) and must write a destination that CommonMark
+           reads back as one (WellFormedDest) - the document-level face of "the escaping it applies to a
+           destination is undone by its unescaping".
 
    IMPLEMENTATION-SHAPED part: collectReplacements / scanInlineLinks / parse* / appendReplacement of
    cmd/scriggo/linkdestination.go and markdownURLEscape / markdownUnescape of mdescape.go transcribed
@@ -80,6 +90,52 @@ DocFrom(doc, i, src, spans) ==
        DocFrom(doc, i + 1, pre \o BT[doc[i]][i], spans \o Shift(BS0[doc[i]][i], Len(pre)))
 Doc(doc) == DocFrom(doc, 1, <<>>, <<>>)
 
+(* ============================ fence documents (ground truth computed, CommonMark 4.5) ========== *)
+
+\* A fence line f = [c, n, ind, tr]: ind spaces, a run of n characters c (backquote 96 or tilde 126), the
+\* trailer tr.  A fence document is F1 L1 F2 L2 ... (one per line), Li the link line "[f](f<i>/g.html)".
+\* CommonMark 4.5: a code fence is a run of >= 3 backquotes or tildes indented by <= 3 spaces; the info
+\* string of a backquote fence contains no backquote; "the closing code fence must use the same character
+\* as the opening fence, and have at least as many backticks or tildes as the opening fence", may be
+\* indented by <= 3 spaces and "may be followed only by spaces or tabs"; an unclosed block runs to the end
+\* of the document.  A fence-like line that does not open a block (indented by 4) carries no link, whether
+\* it is indented code or a paragraph continuation.  A link line is code exactly when a block is open.
+FLineText(f) == [k \in 1..f.ind |-> 32] \o [k \in 1..f.n |-> f.c] \o f.tr
+BlankSet == {32, 9}
+OnlyBlanks(t) == \A k \in 1..Len(t) : t[k] \in BlankSet
+F0 == [open |-> FALSE, c |-> 0, n |-> 0]
+RefFenceOpens(f) == f.ind <= 3 /\ f.n >= 3 /\ (f.c = 96 => \A k \in 1..Len(f.tr) : f.tr[k] # 96)
+RefFenceCloses(f, st) == f.ind <= 3 /\ f.c = st.c /\ f.n >= st.n /\ OnlyBlanks(f.tr)
+RefFenceStep(f, st) == IF st.open THEN (IF RefFenceCloses(f, st) THEN F0 ELSE st)
+                       ELSE IF RefFenceOpens(f) THEN [open |-> TRUE, c |-> f.c, n |-> f.n] ELSE st
+FDest(i) == <<102, Digit(i), 47, 103, 46, 104, 116, 109, 108>>          \* f<i>/g.html
+FLinkOpen == <<91, 102, 93, 40>>                                          \* [f](
+FLink(i) == FLinkOpen \o FDest(i) \o <<41>>
+\* text appended for position i (the previous text ends without a line break)
+FPiece(f, i) == (IF i = 1 THEN <<>> ELSE <<10>>) \o FLineText(f) \o <<10>> \o FLink(i)
+RECURSIVE FDocFrom(_, _, _, _, _)
+FDocFrom(fd, i, src, spans, st) ==
+  IF i > Len(fd) THEN [src |-> src, spans |-> spans]
+  ELSE LET st2 == RefFenceStep(fd[i], st)
+           s2 == src \o FPiece(fd[i], i)
+           e == Len(s2) - 1 IN
+       FDocFrom(fd, i + 1, s2, Append(spans, [s |-> e - Len(FDest(i)), e |-> e, c |-> IF st2.open THEN "code" ELSE "rel", b |-> i]), st2)
+FDoc(fd) == FDocFrom(fd, 1, <<>>, <<>>, F0)
+
+(* ============================ query documents (ground truth computed, CommonMark 2.4) ========= *)
+
+\* CommonMark 2.4: "Any ASCII punctuation character may be backslash-escaped"; RefEscape escapes every one,
+\* so whatever s is, the destination below is a destination and denotes  p1/q?k s v .
+RECURSIVE RefEscFrom(_, _)
+RefEscFrom(s, i) == IF i > Len(s) THEN <<>>
+                    ELSE (IF IsPunct(s[i]) THEN <<92, s[i]>> ELSE <<s[i]>>) \o RefEscFrom(s, i + 1)
+RefEscape(s) == RefEscFrom(s, 1)
+QDoc(s, angle) ==
+  LET pre == <<91, 97, 93, 40>> \o (IF angle THEN <<60>> ELSE <<>>)                 \* [a](  or  [a](<
+      d == <<112, 49, 47, 113, 63, 107>> \o RefEscape(s) \o <<118>> IN              \* p1/q?k ... v
+  [src |-> pre \o d \o (IF angle THEN <<62>> ELSE <<>>) \o <<41>>,
+   spans |-> <<[s |-> Len(pre), e |-> Len(pre) + Len(d), c |-> "rel", b |-> 1]>>]
+
 (* ============================ REFERENCE: destinations ========================================== *)
 
 \* CommonMark 2.4: a backslash before an ASCII punctuation character denotes that character
@@ -108,8 +164,6 @@ HasScheme(u) == Len(u) >= 2 /\ IsAlpha(u[1]) /\ SchemeEnd(u, 2) # 0
 
 \* the alphabet the reference handles in a destination (anything else: ref_undefined, never failed)
 DestPunct == {47, 46, 45, 95, 35, 63, 61, 58, 64, 40, 41}      \* / . - _ # ? = : @ ( )   (sets are named constants: TLC builds them once)
-DestByteOk(c) == IsAlnum(c) \/ c \in DestPunct
-DestDefined(u) == \A k \in 1..Len(u) : DestByteOk(u[k])
 
 \* class of an (unescaped) destination:
 \*   "stay"  absolute URL, empty, or only query and/or fragment   "net"  //host/path
@@ -124,6 +178,14 @@ RECURSIVE SuffixStart(_, _)
 SuffixStart(u, i) == IF i > Len(u) \/ u[i] \in {35, 63} THEN i ELSE SuffixStart(u, i + 1)
 PathPart(u) == Sub(u, 1, SuffixStart(u, 1) - 1)
 SuffixPart(u) == From(u, SuffixStart(u, 1))
+
+\* the reference is defined on destinations whose path is in the simple alphabet above and whose query /
+\* fragment is printable ASCII without '%' (percent-encoded octets in the source are not generated)
+DestByteOk(c) == IsAlnum(c) \/ c \in DestPunct
+SuffixByteOk(c) == c >= 33 /\ c <= 126 /\ c # 37
+DestDefined(u) == LET q == SuffixStart(u, 1) IN
+                  /\ \A k \in 1..(q - 1) : DestByteOk(u[k])
+                  /\ \A k \in q..Len(u) : SuffixByteOk(u[k])
 
 \* split on '/' (empty segments kept), join with '/'
 RECURSIVE SplitFrom(_, _, _)
@@ -211,6 +273,36 @@ RequiredPrefix(u, cfg) ==
 AbsAgainstBase(d, new, cfg) ==
   LET u == RefUnescape(d) IN HasPrefix(RefUnescape(new), RequiredPrefix(u, cfg))
 
+\* PROPERTY-LEVEL clause "makes every rewritten relative destination absolute against the base", second
+\* half: resolving a reference against a base keeps its query and fragment (RFC 3986 5.2.2: T.query =
+\* R.query, T.fragment = R.fragment).  Both sides are read as CommonMark reads them (backslash unescape)
+\* and compared modulo percent-encoding (the spelling is not a clause).  This is also where "the escaping
+\* it applies to a destination is undone by its unescaping" shows in a document: an escaper that does not
+\* protect a backslash of the URL makes the written destination read back as another URL.
+SuffixKept(d, new) == PctDecode(SuffixPart(RefUnescape(new))) = PctDecode(SuffixPart(RefUnescape(d)))
+
+\* PROPERTY-LEVEL: what is written in place of a destination is a destination again (CommonMark 6.3), so
+\* that the bytes after it are still outside a destination.  Bare: non-empty, does not start with '<', no
+\* space or control character, parentheses escaped or balanced; between '<' and '>': no line ending, no
+\* unescaped '<' or '>'.  A backslash that is the last byte would escape the closing delimiter.
+RECURSIVE BareDestOk(_, _, _)
+BareDestOk(x, i, depth) ==
+  IF i > Len(x) THEN depth = 0
+  ELSE IF x[i] = 92 THEN (IF i = Len(x) THEN FALSE
+                          ELSE IF IsPunct(x[i + 1]) THEN BareDestOk(x, i + 2, depth) ELSE BareDestOk(x, i + 1, depth))
+  ELSE IF x[i] <= 32 \/ x[i] = 127 THEN FALSE
+  ELSE IF x[i] = 40 THEN BareDestOk(x, i + 1, depth + 1)
+  ELSE IF x[i] = 41 THEN depth > 0 /\ BareDestOk(x, i + 1, depth - 1)
+  ELSE BareDestOk(x, i + 1, depth)
+RECURSIVE AngleDestOk(_, _)
+AngleDestOk(x, i) ==
+  IF i > Len(x) THEN TRUE
+  ELSE IF x[i] = 92 THEN (IF i = Len(x) THEN FALSE
+                          ELSE IF IsPunct(x[i + 1]) THEN AngleDestOk(x, i + 2) ELSE AngleDestOk(x, i + 1))
+  ELSE IF x[i] \in {10, 13, 60, 62} THEN FALSE
+  ELSE AngleDestOk(x, i + 1)
+WellFormedDest(x, angle) == IF angle THEN AngleDestOk(x, 1) ELSE x # <<>> /\ x[1] # 60 /\ BareDestOk(x, 1, 0)
+
 (* ============================ REFERENCE: the judge ============================================= *)
 
 \* Match: out must be src with only the spans replaced.  gap(0) = src before the first span, gap(k) =
@@ -243,6 +335,8 @@ Match(src, spans, out) ==
        IF HasPrefix(out, g0) THEN MatchFrom(src, spans, out, 1, Len(g0) + 1, <<>>)
        ELSE [ok |-> FALSE, fail |-> 0, xs |-> <<>>]
 
+\* the destination of span sp is written between '<' and '>'
+InAngles(src, sp) == sp.s >= 1 /\ src[sp.s] = 60 /\ sp.e + 1 <= Len(src) /\ src[sp.e + 1] = 62
 \* cause of the failure of span sp replaced by x ("" = fine)
 SpanCause(src, sp, x, cfg) ==
   LET d == OldDest(src, sp) IN
@@ -250,7 +344,9 @@ SpanCause(src, sp, x, cfg) ==
   ELSE IF ~DestDefined(RefUnescape(d)) THEN ""                       \* ref_undefined: never failed
   ELSE IF sp.c = "stay" THEN (IF RefUnescape(x) = RefUnescape(d) THEN "" ELSE "stay-changed")
   ELSE IF x = d THEN "missed"                                           \* sp.c = "rel"
-  ELSE IF AbsAgainstBase(d, x, cfg) THEN "" ELSE "not-absolute"
+  ELSE IF ~AbsAgainstBase(d, x, cfg) THEN "not-absolute"
+  ELSE IF ~WellFormedDest(x, InAngles(src, sp)) THEN "dest-broken"
+  ELSE IF ~SuffixKept(d, x) THEN "suffix-changed" ELSE ""
 
 \* first failing span of a matched document (0 = none)
 RECURSIVE FirstBadSpan(_, _, _, _, _)
@@ -262,13 +358,13 @@ FirstBadSpan(src, spans, xs, cfg, k) ==
 DocVerdict(r) ==
   LET cfg == Cfg(r.base, r.dir)
       n == Len(r.spans) IN
-  IF r.outcome # "ok" THEN [cause |-> r.outcome, b |-> 0]
+  IF r.outcome # "ok" THEN [cause |-> r.outcome, b |-> 0, k |-> 0, x |-> <<>>]
   ELSE LET m == Match(r.src, r.spans, r.out) IN
-       IF ~m.ok THEN [cause |-> "outside-changed", b |-> IF n = 0 THEN 0 ELSE r.spans[IF m.fail < n THEN m.fail + 1 ELSE n].b]
+       IF ~m.ok THEN [cause |-> "outside-changed", b |-> IF n = 0 THEN 0 ELSE r.spans[IF m.fail < n THEN m.fail + 1 ELSE n].b, k |-> 0, x |-> <<>>]
        ELSE LET k == FirstBadSpan(r.src, r.spans, m.xs, cfg, 1) IN
-            IF k # 0 THEN [cause |-> SpanCause(r.src, r.spans[k], m.xs[k], cfg), b |-> r.spans[k].b]
-            ELSE IF r.out2 # r.out THEN [cause |-> "not-idempotent", b |-> 0]
-            ELSE [cause |-> "", b |-> 0]
+            IF k # 0 THEN [cause |-> SpanCause(r.src, r.spans[k], m.xs[k], cfg), b |-> r.spans[k].b, k |-> k, x |-> m.xs[k]]
+            ELSE IF r.out2 # r.out THEN [cause |-> "not-idempotent", b |-> 0, k |-> 0, x |-> <<>>]
+            ELSE [cause |-> "", b |-> 0, k |-> 0, x |-> <<>>]
 DocOk(r) == DocVerdict(r).cause = ""
 
 \* the escape pair
